@@ -26,7 +26,8 @@ type traceKey struct{}
 
 type event struct {
 	id   int
-	path string
+	path string // r.URL.Path
+	uri  string // r.RequestURI when it disagrees with r.URL.RequestURI(), else "" (not part of the canonical answer)
 	err  string // "n" or the status of the error in the request context ("0": not a HandlerError)
 }
 
@@ -61,13 +62,13 @@ func (p *Probe) ServeHTTP(w http.ResponseWriter, r *http.Request, next caddyhttp
 				e = "0"
 			}
 		}
-		path := r.URL.Path
+		uri := ""
 		if r.RequestURI != r.URL.RequestURI() {
-			// the request line and the parsed URL disagree (never the case on the unchanged tree:
-			// the rewrite probe sets both, Server.ServeHTTP restores both)
-			path += "!uri=" + r.RequestURI
+			// RequestURI lives in the request struct, the URL behind a pointer: a shallow copy
+			// of the request (WithError) can hold a stale RequestURI next to a rewritten URL
+			uri = r.RequestURI
 		}
-		rec.events = append(rec.events, event{p.ID, path, e})
+		rec.events = append(rec.events, event{p.ID, r.URL.Path, uri, e})
 	}
 	switch p.Kind {
 	case "pass":
